@@ -162,7 +162,7 @@ Qed.
 
 (* what the header stage consumed *)
 Lemma hdr_a_used data t e h crc used : hdr_a data t = (e, h, crc, used) ->
-  (used <= length data)%nat /\ (used <= N.to_nat (h_size h) + 1)%nat /\
+  (used <= length data)%nat /\ (used <= Nat.max 1 (N.to_nat (h_size h)))%nat /\
   (e = None -> used = N.to_nat (h_size h) /\ (1 <= used)%nat).
 Proof.
   unfold hdr_a. destruct data as [|sz rest].
@@ -474,4 +474,206 @@ Proof.
     + assert (A2' : adv rd1 rd2 (length (rd_data rd1))) by (apply (adv_shrink rd1 rd2 limit); [exact A2|rewrite Hd1; lia]).
       pose proof (adv_trans _ _ _ _ _ AH A2') as A3. rewrite Hd1 in A3.
       cbn [tmatch]. apply matches_exact; fields; try reflexivity; [exact A3|rewrite skipn_length; lia].
+Qed.
+
+(* ------------------------------------------------------------ consequences for decode *)
+Lemma crc_a_ok rest t crc f : fst (fst (crc_a rest t crc f)) = None -> snd (crc_a rest t crc f) = 2 /\ 2 <= length rest.
+Proof.
+  unfold crc_a, rf_err. destruct (Nat.leb_spec 2 (length rest)); cbn [fst snd]; [intros _; split; [reflexivity|assumption]|discriminate].
+Qed.
+
+(* what a run of decode_a consumed *)
+Ltac fin := repeat split; intros; try lia; try discriminate; try congruence;
+  try (match goal with H : _ \/ _ |- _ => destruct H; discriminate end).
+
+Lemma decode_a_used o md g data t a : decode_a o md g data t = TDone a ->
+  ar_used a <= Nat.max 1 (N.to_nat (h_size (ar_hdr a))) + N.to_nat (h_dsize (ar_hdr a)) + 2 /\
+  (md = MHeaderOnly -> ar_used a <= Nat.max 1 (N.to_nat (h_size (ar_hdr a)))) /\
+  (ar_err a = None -> md <> MFileIdOnly -> ar_exact a = true) /\
+  (ar_err a = None -> md = MHeaderOnly -> ar_used a = N.to_nat (h_size (ar_hdr a))) /\
+  (ar_err a = None -> md = MFull \/ md = MCrcOnly ->
+   ar_used a = N.to_nat (h_size (ar_hdr a)) + N.to_nat (h_dsize (ar_hdr a)) + 2).
+Proof.
+  unfold decode_a. destruct (hdr_a data t) as [[[e h] crc] used] eqn:Eh.
+  destruct (hdr_a_used _ _ _ _ _ _ Eh) as (U1 & U2 & U3).
+  destruct e as [e|].
+  { intros H; inversion H; subst; fields. fin. }
+  destruct (U3 eq_refl) as [U4 U5]. set (limit := N.to_nat (h_dsize h)).
+  destruct md.
+  - destruct (run_a _ _ _) as [y a' s''|e' a' s''|e' a' s''|w'|]; try discriminate.
+    + cbv zeta. destruct (negb (Nat.eqb (a_n a') (a_limit a'))); [discriminate|].
+      intros H; inversion H; subst; clear H; fields.
+      pose proof (crc_a_used (a_rest a') t (crc_write crc (firstn limit (skipn (N.to_nat (h_size h)) data))) (ds_file s'')) as HC.
+      fold limit in HC |- *.
+      split; [lia|]. split; [discriminate|]. split; [reflexivity|]. split; [discriminate|].
+      intros He _. destruct (crc_a_ok _ _ _ _ He) as [-> _]. lia.
+    + intros H; inversion H; subst; clear H; fields. fold limit. fin.
+    + intros H; inversion H; subst; clear H; fields. fold limit. fin.
+  - intros H; inversion H; subst; clear H; fields. fin.
+  - destruct (run_a _ _ _) as [y a' s''|e' a' s''|e' a' s''|w'|]; try discriminate;
+      intros H; inversion H; subst; clear H; fields; fold limit; fin.
+  - unfold cp_err. fold limit. destruct (Nat.leb_spec limit (length (skipn used data))) as [L|L].
+    + intros H; inversion H; subst; clear H; fields.
+      pose proof (crc_a_used (skipn limit (skipn (N.to_nat (h_size h)) data)) t (crc_write crc (firstn limit (skipn (N.to_nat (h_size h)) data))) (new_file h)) as HC.
+      fold limit in HC |- *.
+      split; [lia|]. split; [discriminate|]. split; [reflexivity|]. split; [discriminate|].
+      intros He _. destruct (crc_a_ok _ _ _ _ He) as [-> _]. lia.
+    + intros H; inversion H; subst; clear H; fields. fold limit. rewrite skipn_length in *. fin.
+Qed.
+
+(* (b) a successful Decode / CheckIntegrity consumes exactly header size + data size + 2 bytes *)
+Theorem decode_consumed_exact o md g rd fuel r : wf rd fuel -> md = MFull \/ md = MCrcOnly ->
+  decode o md g rd fuel = TDone r -> dr_err r = None ->
+  rd_pos (dr_rd r) = rd_pos rd + N.to_nat (h_size (dr_hdr r)) + N.to_nat (h_dsize (dr_hdr r)) + 2.
+Proof.
+  intros Hwf Hmd Hd He. pose proof (decode_abs o md g rd fuel Hwf) as HA. rewrite Hd in HA.
+  destruct (decode_a o md g (rd_data rd) (rd_term rd)) as [a|w|] eqn:Ea; try contradiction.
+  destruct HA as (M1 & M2 & M3 & M4 & M5 & M6 & M7 & M8 & M9).
+  destruct (decode_a_used _ _ _ _ _ _ Ea) as (_ & _ & D3 & _ & D5).
+  rewrite M1 in He. assert (Hmd' : md <> MFileIdOnly) by (destruct Hmd; subst; discriminate).
+  rewrite (adv_full _ _ _ (M8 (D3 He Hmd')) M9), (D5 He Hmd), M2. lia.
+Qed.
+
+(* header-only calls consume exactly the header *)
+Theorem decode_header_only_exact o g rd fuel r : wf rd fuel ->
+  decode o MHeaderOnly g rd fuel = TDone r -> dr_err r = None ->
+  rd_pos (dr_rd r) = rd_pos rd + N.to_nat (h_size (dr_hdr r)).
+Proof.
+  intros Hwf Hd He. pose proof (decode_abs o MHeaderOnly g rd fuel Hwf) as HA. rewrite Hd in HA.
+  destruct (decode_a o MHeaderOnly g (rd_data rd) (rd_term rd)) as [a|w|] eqn:Ea; try contradiction.
+  destruct HA as (M1 & M2 & M3 & M4 & M5 & M6 & M7 & M8 & M9).
+  destruct (decode_a_used _ _ _ _ _ _ Ea) as (_ & _ & D3 & D4 & _).
+  rewrite M1 in He.
+  rewrite (adv_full _ _ _ (M8 (D3 He ltac:(discriminate))) M9), (D4 He eq_refl), M2. lia.
+Qed.
+
+(* (c) no mode, no outcome ever takes a byte beyond the frame the header announces (beyond the header for the
+   header-only mode); the reader is never rewound; decode never runs out of fuel *)
+Theorem decode_never_past_frame o md g rd fuel : wf rd fuel ->
+  match decode o md g rd fuel with
+  | TDone r =>
+      rd_pos rd <= rd_pos (dr_rd r) /\
+      rd_pos (dr_rd r) <= rd_pos rd + length (rd_data rd) /\
+      rd_pos (dr_rd r) <= rd_pos rd + Nat.max 1 (N.to_nat (h_size (dr_hdr r))) + N.to_nat (h_dsize (dr_hdr r)) + 2 /\
+      (md = MHeaderOnly -> rd_pos (dr_rd r) <= rd_pos rd + Nat.max 1 (N.to_nat (h_size (dr_hdr r)))) /\
+      wf (dr_rd r) fuel /\ rd_term (dr_rd r) = rd_term rd /\ rd_ewd (dr_rd r) = rd_ewd rd
+  | TPanic _ => True
+  | TOutOfFuel => False
+  end.
+Proof.
+  intros Hwf. pose proof (decode_abs o md g rd fuel Hwf) as HA.
+  destruct (decode o md g rd fuel) as [r|w|]; destruct (decode_a o md g (rd_data rd) (rd_term rd)) as [a|w'|] eqn:Ea; try contradiction; try exact I.
+  destruct HA as (M1 & M2 & M3 & M4 & M5 & [k M6] & M7 & M8 & M9).
+  destruct (decode_a_used _ _ _ _ _ _ Ea) as (D1 & D2 & _). rewrite M2.
+  split; [destruct (adv_pos_le _ _ _ M6); lia|]. split; [lia|]. split; [lia|]. split; [intros Hm; specialize (D2 Hm); lia|].
+  split; [eapply adv_wf; eassumption|]. split; [apply (adv_term _ _ _ M6)|apply (adv_ewd _ _ _ M6)].
+Qed.
+
+(* (d) the whole decode does not depend on the chunk schedule, on data-with-EOF, on the fuel or on where the
+   reader started: results agree field by field; the bytes consumed and the bytes left agree whenever the call
+   succeeds outside the file_id-only mode (there, and after a decoder-level failure, the read-ahead of the
+   4096-byte buffer depends on the chunking) *)
+Definition same_result (p1 p2 : nat) (md : mode) (x y : tout dres) : Prop :=
+  match x, y with
+  | TDone r1, TDone r2 =>
+      dr_err r1 = dr_err r2 /\ dr_hdr r1 = dr_hdr r2 /\ dr_file r1 = dr_file r2 /\ dr_g r1 = dr_g r2 /\ dr_quirks r1 = dr_quirks r2 /\
+      (dr_err r1 = None -> md <> MFileIdOnly ->
+       rd_pos (dr_rd r1) - p1 = rd_pos (dr_rd r2) - p2 /\ rd_data (dr_rd r1) = rd_data (dr_rd r2))
+  | TPanic w1, TPanic w2 => w1 = w2
+  | _, _ => False
+  end.
+
+Theorem decode_schedule_independent o md g data t sched1 sched2 ewd1 ewd2 pos1 pos2 fuel1 fuel2 :
+  length data + length sched1 < fuel1 -> length data + length sched2 < fuel2 ->
+  same_result pos1 pos2 md (decode o md g (mk_reader data sched1 t ewd1 pos1) fuel1)
+                           (decode o md g (mk_reader data sched2 t ewd2 pos2) fuel2).
+Proof.
+  intros H1 H2.
+  pose proof (decode_abs o md g (mk_reader data sched1 t ewd1 pos1) fuel1 H1) as A1.
+  pose proof (decode_abs o md g (mk_reader data sched2 t ewd2 pos2) fuel2 H2) as A2.
+  cbn [rd_data rd_term] in A1, A2. unfold same_result.
+  destruct (decode o md g (mk_reader data sched1 t ewd1 pos1) fuel1) as [r1|w1|];
+    destruct (decode_a o md g data t) as [a|w|] eqn:Ea; try contradiction;
+    destruct (decode o md g (mk_reader data sched2 t ewd2 pos2) fuel2) as [r2|w2|]; try contradiction; [|congruence].
+  destruct A1 as (M1 & M2 & M3 & M4 & M5 & M6 & M7 & M8 & M9).
+  destruct A2 as (N1 & N2 & N3 & N4 & N5 & N6 & N7 & N8 & N9).
+  destruct (decode_a_used _ _ _ _ _ _ Ea) as (_ & _ & D3 & _).
+  repeat (split; [congruence|]).
+  intros He Hm. rewrite M1 in He. specialize (D3 He Hm). cbn [rd_data] in M9.
+  pose proof (adv_full _ _ _ (M8 D3) M9) as P1. pose proof (adv_full _ _ _ (N8 D3) N9) as P2. cbn [rd_pos] in P1, P2.
+  split; [lia|]. rewrite (adv_data _ _ _ (M8 D3)), (adv_data _ _ _ (N8 D3)). reflexivity.
+Qed.
+
+(* ------------------------------------------------------------ prefix determinacy of decode_a *)
+Lemma firstn_eq_le {A} (l l' : list A) m k : firstn m l' = firstn m l -> k <= m -> firstn k l' = firstn k l.
+Proof.
+  intros H Hk. rewrite <- (Nat.min_l k m Hk), <- !firstn_firstn, H. reflexivity.
+Qed.
+
+Lemma hdr_a_ext data t h crc used : hdr_a data t = (None, h, crc, used) ->
+  forall data' t', firstn used data' = firstn used data -> used <= length data' -> hdr_a data' t' = (None, h, crc, used).
+Proof.
+  unfold hdr_a. destruct data as [|sz rest]; [discriminate|].
+  destruct (negb ((sz =? c_headerSizeCRC)%N || (sz =? c_headerSizeNoCRC)%N)) eqn:Esz; [discriminate|].
+  destruct (Nat.leb_spec (N.to_nat sz - 1) (length rest)) as [L|L]; [|discriminate].
+  intros H data' t' Hf Hl. injection H as Hp Hu. subst used.
+  destruct data' as [|sz' rest']; [cbn in Hl; lia|].
+  cbn [firstn Nat.add] in Hf. injection Hf as Hsz Hrest. subst sz'. rewrite Esz.
+  cbn [length] in Hl.
+  destruct (Nat.leb_spec (N.to_nat sz - 1) (length rest')) as [L'|L']; [|lia].
+  rewrite Hrest, Hp. reflexivity.
+Qed.
+
+Lemma crc_a_ext rest t crc f : fst (fst (crc_a rest t crc f)) = None ->
+  forall rest' t', firstn 2 rest' = firstn 2 rest -> 2 <= length rest' -> crc_a rest' t' crc f = crc_a rest t crc f.
+Proof.
+  unfold crc_a, rf_err. destruct (Nat.leb_spec 2 (length rest)) as [L|L]; [|discriminate].
+  intros _ rest' t' Hf Hl. destruct (Nat.leb_spec 2 (length rest')); [|lia]. rewrite Hf. reflexivity.
+Qed.
+
+(* a successful decode (outside the file_id-only mode) is determined by the bytes it consumed: whatever follows
+   them, and whatever the reader would answer at the end, the result is the same *)
+Theorem decode_a_ext o md g data t a : decode_a o md g data t = TDone a -> ar_err a = None -> md <> MFileIdOnly ->
+  forall data' t', firstn (ar_used a) data' = firstn (ar_used a) data -> ar_used a <= length data' ->
+  decode_a o md g data' t' = TDone a.
+Proof.
+  intros Hd He Hm data' t' Hf Hl. revert Hd. unfold decode_a.
+  destruct (hdr_a data t) as [[[e h] crc] used] eqn:Eh.
+  destruct (hdr_a_used _ _ _ _ _ _ Eh) as (U1 & U2 & U3).
+  destruct e as [e|]; [intros H; inversion H; subst; discriminate|].
+  set (limit := N.to_nat (h_dsize h)).
+  destruct md; try congruence.
+  - (* MFull *)
+    pose proof (run_a_prefix (data_prog o false (S limit)) (skipn used data) t 0 limit (init_dstate (new_file h) g)) as HP.
+    pose proof (run_a_ext_ok (data_prog o false (S limit)) (skipn used data) t 0 limit (init_dstate (new_file h) g)) as HX.
+    destruct (run_a (data_prog o false (S limit)) (mk_ast (skipn used data) t 0 limit) (init_dstate (new_file h) g)) as [y x s|e' x s|e' x s|w|];
+      try discriminate; try (intros H; inversion H; subst; discriminate).
+    cbv zeta. destruct (Nat.eqb_spec (a_n x) (a_limit x)) as [En|En]; cbn [negb]; [|discriminate].
+    intros H. inversion H; subst a; clear H. cbn [ar_err ar_used] in *.
+    destruct HP as (P1 & P2 & P3 & P4 & P5 & P6). rewrite Nat.sub_0_r in *. rewrite P5 in En.
+    destruct (crc_a_ok _ _ _ _ He) as [C1 C2]. rewrite C1 in *. rewrite P4, skipn_length, skipn_length in C2. rewrite En in *.
+    assert (Hh : hdr_a data' t' = (None, h, crc, used)).
+    { apply (hdr_a_ext data t); [exact Eh| |lia]. apply (firstn_eq_le _ _ (used + limit + 2)); [exact Hf|lia]. }
+    rewrite Hh. fold limit.
+    destruct (firstn_eq_split data data' used (limit + 2)) as [F1 F2]; [rewrite Nat.add_assoc; exact Hf|lia|lia|].
+    destruct (firstn_eq_split (skipn used data) (skipn used data') limit 2) as [F3 F4]; [exact F2|rewrite skipn_length; lia|rewrite skipn_length; lia|].
+    rewrite (HX y x s eq_refl (skipn used data') t'); rewrite ?Nat.sub_0_r, ?En; [|exact F3|rewrite skipn_length; lia].
+    cbn [a_n a_limit a_rest]. rewrite Nat.eqb_refl. cbn [negb].
+    rewrite F3. rewrite (crc_a_ext (a_rest x) t _ _ He (skipn limit (skipn used data')) t');
+      [rewrite C1; reflexivity|rewrite P4; exact F4|rewrite !skipn_length; lia].
+  - (* MHeaderOnly *)
+    intros H. inversion H; subst a; clear H. cbn [ar_used] in *.
+    rewrite (hdr_a_ext data t _ _ _ Eh data' t' Hf Hl). reflexivity.
+  - (* MCrcOnly *)
+    unfold cp_err. fold limit. destruct (Nat.leb_spec limit (length (skipn used data))) as [L|L];
+      [|intros H; inversion H; subst; discriminate].
+    intros H. inversion H; subst a; clear H. cbn [ar_err ar_used] in *.
+    destruct (crc_a_ok _ _ _ _ He) as [C1 C2]. rewrite C1 in *. rewrite !skipn_length in C2. rewrite !skipn_length in L.
+    assert (Hh : hdr_a data' t' = (None, h, crc, used)).
+    { apply (hdr_a_ext data t); [exact Eh| |lia]. apply (firstn_eq_le _ _ (used + limit + 2)); [exact Hf|lia]. }
+    rewrite Hh. fold limit.
+    destruct (firstn_eq_split data data' used (limit + 2)) as [F1 F2]; [rewrite Nat.add_assoc; exact Hf|lia|lia|].
+    destruct (firstn_eq_split (skipn used data) (skipn used data') limit 2) as [F3 F4]; [exact F2|rewrite skipn_length; lia|rewrite skipn_length; lia|].
+    destruct (Nat.leb_spec limit (length (skipn used data'))) as [L'|L']; [|rewrite skipn_length in L'; lia].
+    rewrite F3. rewrite (crc_a_ext _ t _ _ He (skipn limit (skipn used data')) t'); [rewrite C1; reflexivity|exact F4|rewrite !skipn_length; lia].
 Qed.
